@@ -24,7 +24,7 @@ RelevantTo(st) ==
       [] st \in {<<"raise0">>, <<"raiseargs">>, <<"raisefrom">>, <<"raiseuser">>} -> {"remove_builtin_exception_brackets"}
       [] st \in {<<"assert">>, <<"assert_bind">>} -> {"remove_asserts"}
       [] st \in {<<"dbg_bind">>, <<"dbg_global">>, <<"dbg_yield">>} -> {"remove_debug"}
-      [] st \in DebugTruthy \cup DebugOther \cup {<<"dbg_else">>, <<"dbg_elif">>} -> {"remove_debug"}
+      [] st \in DebugTruthy \cup DebugOther \cup {<<"dbg_else">>, <<"dbg_elif">>, <<"dbg_chain">>} -> {"remove_debug"}
       [] OTHER -> {}
 Relevant(blk) == UNION { RelevantTo(blk[k]) : k \in DOMAIN blk }
 
